@@ -87,6 +87,9 @@ func pokeEmpty(pv reflect.Value, md protoreflect.MessageDescriptor, depth int) i
 // golang/protobuf V1 refuse such a message, the variant is not applied to their types.
 var nilElems bool
 
+// nilMapValues additionally turns empty message VALUES of maps into nil pointers (see pokeNilElems).
+var nilMapValues bool
+
 // nilElemsPoked counts the elements build() replaced since it was last reset.
 var nilElemsPoked int
 
@@ -112,10 +115,35 @@ func pokeNilElems(pv reflect.Value, md protoreflect.MessageDescriptor, depth int
 			continue
 		}
 		fd := md.Fields().ByNumber(protoreflect.FieldNumber(num))
-		if fd == nil || fd.Kind() != protoreflect.MessageKind || fd.IsMap() {
+		if fd == nil {
 			continue
 		}
 		fv := sv.Field(i)
+		if fd.IsMap() {
+			// nil map values: only for the Size/Marshal/MarshalTo agreement check (C04); what a nil map value MEANS
+			// is not agreed between the runtimes and csproto (csproto drops the entry), so C05 does not use it
+			if nilMapValues && fd.MapValue().Kind() == protoreflect.MessageKind && fv.Kind() == reflect.Map {
+				it := fv.MapRange()
+				var keys []reflect.Value
+				for it.Next() {
+					ev := it.Value()
+					if ev.Kind() != reflect.Ptr || ev.IsNil() {
+						continue
+					}
+					if pm, ok := ev.Interface().(proto.Message); ok && proto.Size(pm) == 0 && len(pm.ProtoReflect().GetUnknown()) == 0 {
+						keys = append(keys, it.Key())
+					}
+				}
+				for _, k := range keys {
+					fv.SetMapIndex(k, reflect.Zero(fv.Type().Elem()))
+					n++
+				}
+			}
+			continue
+		}
+		if fd.Kind() != protoreflect.MessageKind {
+			continue
+		}
 		switch {
 		case fd.IsList():
 			if fv.Kind() != reflect.Slice {
